@@ -47,6 +47,24 @@ CHECKS = {
  "C18": dict(engine="A", technique="controlled-scheduler exploration with ThreadSanitizer: harness built with -race, scheduler hand-offs hidden from the detector (RaceDisable + norace), shims re-create exactly the happens-before edges of the real primitives; scheduling points also after releases",
              text="23 scenario bodies (the concurrency scenarios of C01/C02/C06/C07/C14/C17, templated defers in parallel, matrix-ref rows in parallel deps, same-text dynamic vars, failing run-once with two callers, --list-all --json, reader on sibling includes): every schedule within the bound is also a vector-clock race check of its happens-before class; a report counts when both stacks run through Task's own code.",
              note="Bound 0-2 (quick) / +1 (thorough); code paths no scenario reaches are not covered; races are reported per explored schedule (incidental synchronisation can order accesses in a given schedule)."),
+ "C08": dict(engine="C", technique="bounded-exhaustive enumeration of include configurations on the real loader/executor (in-process) against a reference table of callable names, origins, directories, visible include vars and attributes",
+             text="All 64 subsets of include options {dir, internal, flatten, aliases, excludes, vars} on one include x every callable name (namespaced, alias-namespaced, namespace-as-default, task aliases, internal, excluded, non-existent, via deps, ':'-root references); all 256 pairs of {flatten, aliases, excludes, internal} subsets on a two-level chain; attribute-by-attribute comparison of the merged copy with its definition (simple/advanced/flatten/nested include); diamonds, uneven diamonds, same file twice / twice nested with different vars, cycles (110), missing (non-)optional files, version mismatch, flatten collisions.",
+             note="Bounded to the listed option alphabet and graph shapes; sequential (no schedule)."),
+ "C10": dict(engine="C", technique="bounded-exhaustive enumeration of definition-site subsets through the real CLI against the documented precedence order",
+             text="For one variable: all 128 subsets of {OS env, global vars, CLI NAME=value, include vars, included-Taskfile vars, call vars, task vars} x value kind at the winning site {literal, template over a lower variable, sh, ref} x task location {root, included, nested}; for one environment variable: all 32 subsets of {process env, global env, global dotenv (2 files), task dotenv (2 files), task env} x ENV_PRECEDENCE experiment x empty process value; special variables with/without override; one Taskfile included twice (and nested) with different include vars.",
+             note="The order between Taskfile globals and CLI assignments, and between global env and global dotenv, is not stated by the property and not constrained."),
+ "C15": dict(engine="C", technique="bounded-exhaustive enumeration of (task name set, aliases, requested name) over a metacharacter alphabet on the real Executor (in-process) against an independent reference resolver (own greedy '*' matcher, no regexp)",
+             text="21 name tokens incl. ':', '.', '*', '-', '(', '[', '+', '$', '^', '|', '\\', ' ', '?', overlapping prefix/suffix patterns; all sets of <=2 names (both orders, root/included placement, as alias), alias layouts (shared, equal to a task name, matched by a wildcard), 3-name sets in thorough; ~40 requested names each: exact > first wildcard in Taskfile order (parent first) with exact MATCH > unique alias > 203 > 200 with suggestion for one-edit misses.",
+             note="Bounded alphabet; suggestion oracle only demands a suggestion when exactly one plain name is one edit away."),
+ "C16": dict(engine="C", technique="bounded-exhaustive shape-grammar enumeration: every schema position x every shape, executed in crash-isolated in-process batches (child processes of the harness) plus CLI runs for text-level cases; oracle: no panic, no hang",
+             text="A skeleton Taskfile with a value at ~120 schema positions; each position replaced by each of 56 (quick) / 77 (thorough) shapes (null, scalars, lists, maps with every known key, templates, 1 kB strings); top-level shapes of an INCLUDED file x include-option subsets; decode errors on each line x 6 line terminators; 25 include locations x 2 forms x remote experiment on/off; 21x5 task/alias names. Pipeline per document: read, merge, list (json), compile, resolve 5+ names, dry-run, status, summary, real run.",
+             note="Not arbitrary byte strings: the YAML lexer itself is exercised only through these documents. Panics on Task's own goroutines are caught by process isolation; a 30 s horizon per document."),
+ "C19": dict(engine="C", technique="bounded-exhaustive enumeration of argument vectors over a hostile token alphabet through the real CLI binary and an argv-dumping helper",
+             text="38 tokens (spaces, tab, newline, quotes, backslash, $VAR, $(cmd), backticks, globs, braces, operators, template delimiters, '=', empty, dash-prefixed, non-ASCII, 4 kB): all vectors of length <=2 and length 3 over the 9 most hostile tokens after '--' -> {{.CLI_ARGS}}; NAME=value -> {{shellQuote .X}} / {{q .X}} for every token and 60 combinations; NAME=a=b=c splitting; 10 --init path cases.",
+             note="Known finding: values containing '{{' are template-expanded (recorded)."),
+ "C20": dict(engine="D", technique="explicit-state BFS over (remote content version, server mode, cache files + timestamp age, approved checksum) with real CLI invocations against a loopback HTTP server owned by the harness",
+             text="Server content {v1 (longer), v2}, modes {up, refusing, HTTP 500, (thorough) silent beyond --timeout}; 9 (12) flag combinations of --yes/--download/--offline/--expiry/--insecure; events: content change, mode change, cache expiry, kill between the cache writes; BFS to depth 5 (9) with state deduplication (fixpoint reported). Oracles: trust (nothing unapproved runs; 104 only when approval is needed), availability (approved cached copy runs offline / when the server fails), transport (105 without --insecure), download is cached.",
+             note="stdin is not a terminal (a prompt means declined); loopback only."),
 }
 ALL = ["C%02d" % i for i in range(1, 21)]
 REASON_PENDING = "check not built yet in this round (planned in DESIGN.md section 5); not claimed"
@@ -78,6 +96,8 @@ def main():
         },
         "engines": [
             {"name": "A", "path": "/verif/shim/vsched + /verif/harness/vlab", "serves_properties": ["C01","C02","C03","C06","C07","C09","C11","C13","C14","C17","C18"], "kind_free_text": "cooperative scheduler + stateless DFS explorer on the real implementation"},
+            {"name": "C", "path": "/verif/harness/props/c08.go c10.go c15.go c16.go c19.go", "serves_properties": ["C08","C10","C15","C16","C19","C03"], "kind_free_text": "bounded-exhaustive input/configuration enumeration against reference models"},
+            {"name": "D", "path": "/verif/harness/props/c20.go", "serves_properties": ["C20"], "kind_free_text": "explicit-state BFS over remote server x cache x flags"},
             {"name": "B", "path": "/verif/harness/props/hist.go", "serves_properties": ["C04","C05","C12"], "kind_free_text": "explicit-state BFS over histories of file operations and real CLI invocations"},
         ],
         "checks": checks,
